@@ -2,6 +2,7 @@
 # tools/sweep.sh <first-seed> <last-seed> [tier] [ids...]  — runs every registered check for a range of seeds from the
 # current directory's ./check and prints one line per (check, seed) that did not exit 0.
 cd "$(dirname "$0")/.."
+export VERIF_HOME="$(pwd)"
 F=$1; L=$2; T=${3:-quick}; shift 3 2>/dev/null
 IDS="$@"; [ -z "$IDS" ] && IDS=$(python3 -c "import json;print(' '.join(c['property_id'] for c in json.load(open('MANIFEST.json'))['checks']))")
 ./check --build || exit 2
